@@ -278,7 +278,7 @@ func (e *lfEngine) invokeTargets(cc *ssa.CallCommon, recv lfVal) []*ssa.Function
 // inline interprets callee in the context of the call.
 func (e *lfEngine) inline(fr *lfFrame, st *lfState, x *ssa.Call, callee *ssa.Function, bind []lfVal, recv lfVal, k func(st *lfState, res lfVal, fr *lfFrame)) {
 	cc := &x.Call
-	nf := &lfFrame{fn: callee, env: map[ssa.Value]lfVal{}, parent: fr, depth: fr.depth + 1, loops: naturalLoops(callee)}
+	nf := &lfFrame{fn: callee, env: map[ssa.Value]lfVal{}, parent: fr, site: x, depth: fr.depth + 1, loops: naturalLoops(callee)}
 	var args []lfVal
 	if cc.IsInvoke() {
 		// receiver: the dynamic value inside the interface if known, else unknown of the receiver type
@@ -986,11 +986,32 @@ func (e *lfEngine) bitsIntercept(fr *lfFrame, st *lfState, x *ssa.Call, name str
 			res = e.withBits(res, b)
 		}
 		return res, true
+	case "(hash.Hash).Sum", "(hash.Hash).Reset":
+		// markers that delimit one digest computation on one hash object (the value itself is
+		// produced by the contract model)
+		if cc.IsInvoke() && isHashHash(cc.Value.Type()) && e.emitting() {
+			emit("hashop", strings.TrimPrefix(name, "(hash.Hash)."), "")
+			if n := len(st.events); n > 0 && st.events[n-1].Kind == "hashop" {
+				st.events[n-1].Recv = objIdent(e.val(fr, st, cc.Value))
+				st.events[n-1].RootPos = rootCallPos(fr, x)
+			}
+		}
+		return nil, false
 	case "(hash.Hash).Write", "(io.Writer).Write":
 		// the hash input is modelled as an append-only byte stream "h": what is written, in order
 		if len(args) != 1 || !cc.IsInvoke() || !isHashHash(cc.Value.Type()) {
 			return nil, false
 		}
+		recvID := objIdent(e.val(fr, st, cc.Value))
+		nev0 := len(st.events)
+		defer func() {
+			for i := nev0; i < len(st.events); i++ {
+				if st.events[i].Kind == "hash" {
+					st.events[i].Recv = recvID
+					st.events[i].RootPos = rootCallPos(fr, x)
+				}
+			}
+		}()
 		sv := e.val(fr, st, args[0])
 		ln, okLen := e.asSlice(st, sv, args[0].Type(), "p")
 		cur := linConst(0)
@@ -1179,4 +1200,26 @@ func sliceBase(v ssa.Value) ssa.Value {
 		return sl.X
 	}
 	return v
+}
+
+
+// objIdent names the object a value denotes, for telling two hash objects apart on a path.
+func objIdent(v lfVal) string {
+	switch x := v.(type) {
+	case vNilable:
+		return fmt.Sprintf("i%d", x.ID)
+	case vPtr:
+		return fmt.Sprintf("p%d%s", x.Obj, x.Path)
+	}
+	return fmt.Sprintf("?%T", v)
+}
+
+
+// rootCallPos: the position of the call in the entry function within which x is executed.
+func rootCallPos(fr *lfFrame, x *ssa.Call) token.Pos {
+	for fr != nil && fr.parent != nil && fr.site != nil {
+		x = fr.site
+		fr = fr.parent
+	}
+	return x.Pos()
 }
